@@ -28,6 +28,10 @@ use digest::Digest;
 use rug::{integer::Order, Complete, Integer};
 use serde::{Deserialize, Serialize};
 
+/// Extra bits of every blinding value on top of the length of the secret it hides:
+/// the length of the challenge (a SHA-256 digest) plus a statistical security margin.
+const BLINDING_MARGIN: u32 = 256 + 80;
+
 #[derive(Clone, PartialEq, Eq, Debug, Serialize, Deserialize)]
 pub(crate) struct NISP2Commitments {
     challenge: Integer,
@@ -65,11 +69,11 @@ impl NISP2Commitments {
         // Initialize multiple random values, equivalent to secrets m_i and stored in a list
         let mut omega: Vec<Integer> = Vec::new();
         for _i in unrevealed_message_indexes {
-            omega.push(random_bits(CS::lm));
+            omega.push(random_bits(CS::lm + BLINDING_MARGIN));
         }
 
-        let mu_1 = random_bits(CS::ln);
-        let mu_2 = random_bits(CS::ln);
+        let mu_1 = random_bits(CS::ln + BLINDING_MARGIN);
+        let mu_2 = random_bits(CS::ln + BLINDING_MARGIN);
 
         let mut w_1 = Integer::from(1);
         let mut w_2 = Integer::from(1);
@@ -224,8 +228,9 @@ impl NISPSecrets {
         CS: CLCiphersuite,
         CS::HashAlg: Digest,
     {
-        let r1 = random_bits(CS::lm);
-        let r2 = random_bits(CS::ln);
+        // the secret is an attribute (lm bits) or, for the proof on r, a commitment randomness
+        let r1 = random_bits(CS::lm.max(message.value.significant_bits()) + BLINDING_MARGIN);
+        let r2 = random_bits(CS::ln + BLINDING_MARGIN);
 
         let t = (Integer::from(g1.pow_mod_ref(&r1, &n1).unwrap())
             * Integer::from(h1.pow_mod_ref(&r2, &n1).unwrap()))
@@ -296,10 +301,10 @@ impl NISPMultiSecrets {
 
         let mut r1: Vec<Integer> = Vec::new();
         for _ in unrevealed_message_indexes {
-            r1.push(random_bits(CS::lm));
+            r1.push(random_bits(CS::lm + BLINDING_MARGIN));
         }
 
-        let r2 = random_bits(CS::ln);
+        let r2 = random_bits(CS::ln + BLINDING_MARGIN);
 
         let h1 = &signer_pk.b;
         let n1 = &signer_pk.N;
@@ -452,15 +457,16 @@ impl NISPSignaturePoK {
         );
         let (_Ce, re) = (C_Ce.value(), C_Ce.randomness());
 
+        // each r_i hides the secret of s_i: rw, rw*e, rx, e, s, w, w*e, re
         let (r_1, r_2, r_3, r_4, r_6, r_7, r_8, r_9) = (
+            random_bits(CS::ln + BLINDING_MARGIN),
+            random_bits(CS::ln + CS::le + BLINDING_MARGIN),
+            random_bits(CS::ln + BLINDING_MARGIN),
             random_bits(CS::ln),
-            random_bits(CS::ln),
-            random_bits(CS::ln),
-            random_bits(CS::ln),
-            random_bits(CS::ln),
-            random_bits(CS::ln),
-            random_bits(CS::ln),
-            random_bits(CS::ln),
+            random_bits(CS::ls.max(signature.s.significant_bits()) + BLINDING_MARGIN),
+            random_bits(CS::ln + BLINDING_MARGIN),
+            random_bits(CS::ln + CS::le + BLINDING_MARGIN),
+            random_bits(CS::ln + BLINDING_MARGIN),
         );
 
         let mut r_5: Vec<Integer> = Vec::new();
